@@ -131,6 +131,7 @@ static int g_next = 0;            // next payload id
 static char g_state[8192];        // 0 never, 1 live, 2 destroyed
 static bool g_armed = false;
 static int g_live = 0;
+static bool is_live(int id) { return id >= 0 && id < (int)sizeof g_state && g_state[id] == 1; }
 
 struct Boom { int v; };
 static const char* cls_name(int c) { static const char* n[] = {"sn", "st", "lg", "oa"}; return n[c]; }
@@ -170,25 +171,26 @@ struct alignas(Align) Payload : Pad<PadBytes> {
   int val;
   void born() {
     if ((reinterpret_cast<std::uintptr_t>(this) % Align) != 0) monitor("misaligned", id);
-    g_state[id] = 1; ++g_live;
+    if (id >= 0 && id < (int)sizeof g_state) g_state[id] = 1;
+    ++g_live;
   }
   explicit Payload(int v) : id(g_next++), val(v) { born(); ev('c', id, Cls, v); }
   Payload(const Payload& o) : id(g_next++), val(o.val) { born(); ev('k', id, o.id); monitor("copy", id); }
   Payload(Payload&& o) noexcept(NothrowMove) : id(-1), val(0) {
     if constexpr (!NothrowMove) { if (g_armed) { g_armed = false; throw Boom{-1}; } }
-    if (g_state[o.id] != 1) monitor("move-from-dead", o.id);
+    if (!is_live(o.id)) monitor("move-from-dead", o.id);
     id = g_next++; val = o.val; o.val = 0;
     born(); ev('m', id, o.id);
   }
   Payload& operator=(const Payload&) = delete;
   ~Payload() {
-    if (id < 0 || g_state[id] != 1) monitor("double-dtor", id);
+    if (!is_live(id)) monitor("double-dtor", id);
     else { g_state[id] = 2; --g_live; }
     ev('d', id);
   }
   template <bool C>
   friend int tag_invoke(get_val_cpo_t<C>, const Payload& p) noexcept {
-    if (p.id < 0 || g_state[p.id] != 1) monitor("use-after-dtor", p.id);
+    if (!is_live(p.id)) monitor("use-after-dtor", p.id);
     return p.val;
   }
   template <bool C>
